@@ -994,8 +994,9 @@ class RWMH(_AbstractSampler):
 
     def _close_sampler_specific(self):
         if self.autotuning:
-            self.acceptance_rates = self.acceptance_rates[: self.current_proposal]
-            self.stepsizes = self.stepsizes[: self.current_proposal]
+            # current_proposal is the (zero-based) index of the last completed proposal
+            self.acceptance_rates = self.acceptance_rates[: self.current_proposal + 1]
+            self.stepsizes = self.stepsizes[: self.current_proposal + 1]
 
             # Also write these to the hdf5 dataset
             self.samples.write_attribute("acceptance_rates", self.acceptance_rates)
@@ -1422,8 +1423,9 @@ class HMC(_AbstractSampler):
 
     def _close_sampler_specific(self):
         if self.autotuning:
-            self.acceptance_rates = self.acceptance_rates[: self.current_proposal]
-            self.stepsizes = self.stepsizes[: self.current_proposal]
+            # current_proposal is the (zero-based) index of the last completed proposal
+            self.acceptance_rates = self.acceptance_rates[: self.current_proposal + 1]
+            self.stepsizes = self.stepsizes[: self.current_proposal + 1]
 
             # Also write these to the hdf5 dataset
             self.samples.write_attribute("acceptance_rates", self.acceptance_rates)
